@@ -12,6 +12,7 @@ import (
 	"path/filepath"
 	"sort"
 	"strings"
+	"time"
 )
 
 // Op is one line of the protocol: "<id> <class> <kind> <args…>".
@@ -114,9 +115,20 @@ func main() {
 		ops, impl := bufio.NewWriterSize(of, 1<<20), bufio.NewWriterSize(pf, 1<<20)
 		n := 0
 		g := &genCtx{rng: rand.New(rand.NewSource(*seed)), tier: *tier, stat: map[string]int{}}
+		// a changed tree on which (say) every command times out would make each op wait for its context: after 25 ops that
+		// took longer than 1.9 s the rest of the scenario is skipped — the slow ops themselves already carry the verdicts
+		slow := 0
 		g.emit = func(op Op) {
+			if slow >= 25 && op.Kind != "conc" && op.Kind != "time" {
+				g.stat["skipped-after-25-slow-ops"]++
+				return
+			}
 			n++
+			t0 := time.Now()
 			o, v := safeExec(op)
+			if time.Since(t0) > 1900*time.Millisecond && op.Kind != "conc" && op.Kind != "time" {
+				slow++
+			}
 			fmt.Fprintln(ops, op.line(n))
 			if v == "" {
 				v = "-"
